@@ -1,12 +1,7 @@
 #![no_main]
 use libfuzzer_sys::fuzz_target;
-include!("common.rs");
 
+// C10: the input is the byte string handed to the disassembler
 fuzz_target!(|data: &[u8]| {
-    if data.is_empty() || data.len() > 24_576 {
-        return;
-    }
-    vcheck::core::install_panic_hook_once();
-    let mut a = acc();
-    settle("C10", vcheck::props::c10::check_bytes(data, &mut a));
+    vcheck::fuzzing::fuzz_entry("fz_c10", "C10", data);
 });
